@@ -621,7 +621,7 @@ func compareAll(lower, upper *tsdbmodel.Model, res qresult, mint, maxt int64, mi
 	for i, us := range upper.Series {
 		key := us.Labels.String()
 		known[key] = true
-		for _, d := range tsdbmodel.Compare(lower.Series[i], us, res[key], mint, maxt, minReq, upper.Epoch) {
+		for _, d := range tsdbmodel.Compare(lower.Series[i], us, res[key], mint, maxt, minReq, upper.Epoch, upper.OpenCutoff) {
 			errs = append(errs, fmt.Sprintf("series %s: %s", key, d))
 		}
 	}
@@ -786,6 +786,7 @@ func Execute(t *testing.T, prop string, plan *Plan) (res *runner.Result) {
 		e.lsets = append(e.lsets, seriesLabels(i))
 	}
 	e.m = tsdbmodel.New(e.lsets)
+	e.m.OpenCutoff = math.MinInt64
 	e.m.KFRun = e.cfg.KF != ""
 	e.refs = make([]storage.SeriesRef, e.cfg.NSeries)
 	e.pendingCreator = make([]int, e.cfg.NSeries)
@@ -913,6 +914,14 @@ func (e *exec) nonTrivial() bool {
 		return e.res.Counters["images_judged"] > 0
 	case "C02":
 		return e.res.Counters["append_decisions"] >= 5
+	case "C20":
+		return e.res.Counters["samples_deleted"] > 0 && e.compactions > 0 && e.restarts > 0
+	case "C52":
+		return e.res.Counters["counter_checks"] > 10 && e.restarts > 0
+	case "C53":
+		return e.res.Counters["ro_checks_with_head_data"] > 0
+	case "C23":
+		return e.res.Counters["snapshot_checks:intact"] > 0
 	}
 	return e.compactions > 0 && e.restarts > 0 && e.m.NumSamples() > 0
 }
@@ -1007,7 +1016,7 @@ func (e *exec) doAdd(o Op) {
 			}
 		}
 	}
-	if e.cfg.KF != tsdbmodel.TagTombHides && e.covered(o.S, t) {
+	if e.cfg.KF != tsdbmodel.TagTombHides && (e.covered(o.S, t) || ms.InHeadDeleted(t)) {
 		// Known finding: a head tombstone hides samples appended into its range after the deletion.
 		e.res.Count("skipped:"+tsdbmodel.TagTombHides, 1)
 		return
@@ -1509,6 +1518,18 @@ func (e *exec) step(o Op) {
 	if e.failed {
 		return
 	}
+	if e.prop == "C52" && e.db != nil && !e.failed {
+		e.countersVsContents(fmt.Sprintf("after op %d (%s)", e.opIdx, o.K))
+		if e.failed {
+			return
+		}
+	}
+	if e.prop == "C20" && (o.K == "delete" || o.K == "cleantomb" || o.K == "compact" || o.K == "restart") && e.db != nil {
+		e.tombstoneInvariants(fmt.Sprintf("after op %d (%s)", e.opIdx, o.K), o.K == "cleantomb")
+		if e.failed {
+			return
+		}
+	}
 	if e.isMutating(o.K) && o.K != "restart" {
 		e.verify(e.db, e.m, e.m, "query-vs-model", fmt.Sprintf("after op %d (%s)", e.opIdx, o.K), math.MinInt64)
 		if len(e.res.Violations) > 0 {
@@ -1617,7 +1638,6 @@ func (e *exec) restart() {
 	} else {
 		tagAtRisk(e.db, e.m)
 	}
-	e.m.PurgeDeletedBelow(replayCutoff(e.db))
 	if err := e.db.Close(); err != nil {
 		e.fail("close", "close-error", "op %d: Close failed: %v", e.opIdx, err)
 		e.db = nil
@@ -1642,6 +1662,7 @@ func (e *exec) restart() {
 	}
 	e.syncPresence()
 	e.m.Restarted()
+	e.m.OpenCutoff = replayCutoff(e.db)
 	e.oooCompactedThisEpoch = false
 	e.verify(e.db, e.m, e.m, "query-vs-model-after-restart", fmt.Sprintf("after restart at op %d", e.opIdx), math.MinInt64)
 	if len(e.res.Violations) > 0 {
@@ -1707,13 +1728,12 @@ func (e *exec) adoptCrash(ci *image, lower, upper *tsdbmodel.Model) {
 	}
 	e.syncPresence()
 	e.m.Restarted()
+	e.m.OpenCutoff = replayCutoff(e.db)
 	e.oooCompactedThisEpoch = false
 	if e.headInit() && e.db.Head().MaxTime() > e.now {
 		e.now = e.db.Head().MaxTime()
 	}
 }
 
-// atCleanShutdown is the hook for the copy-based oracles (C23, C53, C04).
-func (e *exec) atCleanShutdown() {}
 
 func (e *exec) finalChecks() {}
